@@ -98,8 +98,8 @@ theorem ts_modOwner {a st : Core} (h : TreeShrink a st) (o : Nat) (f : OwnerRec 
     (hp : ∀ r, (f r).parent = r.parent) (hc : ∀ r, (f r).children = r.children) :
     TreeShrink a (st.modOwner o f) := h.trans (TreeShrink.modOwner st o f hp hc)
 
-theorem ts_regCleanup {a st : Core} (h : TreeShrink a st) (tag : Nat) (nested : Bool) :
-    TreeShrink a (regCleanup st tag nested) := by
+theorem ts_regCleanup {a st : Core} (h : TreeShrink a st) (tag : Nat) (nested : Bool) (drops : Option Nat) :
+    TreeShrink a (regCleanup st tag nested drops) := by
   unfold regCleanup
   simp only
   split
@@ -138,7 +138,7 @@ theorem TreeShrink.step (st : Core) (f : Frame) : TreeShrink st (stepFrame st f)
   | run c ow late =>
     by_cases hn : c.nested = true
     · simp only [stepFrame, hn, if_true]
-      refine ts_newStored (ts_regCleanup ?_ _ _) _
+      refine ts_newStored (ts_regCleanup ?_ _ _ _) _
       exact ts_eq (TreeShrink.refl _) rfl
     · simp only [stepFrame, hn, if_false, Bool.false_eq_true]; exact TreeShrink.of_owners_eq rfl
   | remove k late => simp only [stepFrame]; exact TreeShrink.of_owners_eq rfl
@@ -284,7 +284,7 @@ theorem treeWF_newOwnerUnder {st : Core} (h : TreeWF st) (p : Option Nat) (pause
 
 theorem TreeWF.prim {a b : Core} (hp : CorePrim a b) (h : TreeWF a) : TreeWF b := by
   cases hp with
-  | regCleanup tag nested => exact h.shrink (ts_regCleanup (TreeShrink.refl _) _ _)
+  | regCleanup tag nested drops => exact h.shrink (ts_regCleanup (TreeShrink.refl _) _ _ _)
   | newItem v => exact h.shrink (ts_newItem (TreeShrink.refl _) _)
   | addItemHandle k => exact h.shrink (TreeShrink.of_owners_eq rfl)
   | newOwnerUnder p paused hp => exact treeWF_newOwnerUnder h p paused hp
